@@ -114,13 +114,78 @@ shape!(run_three_of_five, ThreeOfFive {
     excluded: [first: u16 = 4242, 1; last: f32 = 0.125, 64.0]
 });
 
-pub const SHAPE_NAMES: [&str; 4] = ["OneOfThree", "OneOfTwo", "TwoOfThree", "ThreeOfFive"];
+/// Hand-written shapes for what the macro above cannot express: other attributes and doc
+/// comments written before `#[animate]`, and excluded fields declared *between* and *after*
+/// animated ones.
+#[derive(Animate, Clone, Debug, Default, PartialEq)]
+pub struct Documented {
+    pub id: i32,
+    /// Horizontal position (a doc comment before the marker).
+    #[animate]
+    pub x: f32,
+    pub radius: f32,
+    #[allow(dead_code)]
+    #[animate]
+    pub y: f32,
+    pub layer: u16,
+}
+
+pub fn run_documented(ops: &[(Op, Fault)], variant: u64) -> Option<String> {
+    let initial = Documented { id: 42, x: 1.0, radius: 64.0, y: -1.0, layer: 7 };
+    let foreign1 = Documented { id: 7, x: 10.0, radius: 0.0, y: 5.0, layer: 900 };
+    let foreign2 = Documented { id: -3, x: -10.0, radius: 1.5, y: 50.0, layer: 1 };
+    let check = |v: &Documented, what: &str| -> Option<String> {
+        if v.id != initial.id || v.radius != initial.radius || v.layer != initial.layer {
+            Some(format!(
+                "shape Documented: {what} changed an excluded field: id {} radius {} layer {} (must stay 42 / 64 / 7)",
+                v.id, v.radius, v.layer
+            ))
+        } else {
+            None
+        }
+    };
+    let tl = || {
+        Documented::timeline()
+            .duration_seconds(1.0)
+            .delay_seconds(if variant & 4 == 4 { 0.25 } else { 0.0 })
+            .reverse(variant & 1 == 1)
+            .keyframe(Documented::keyframe_from(&foreign1, 0.0))
+            .keyframe(Documented::keyframe_from(&foreign2, 1.0))
+    };
+    let bare = TimelineBuilder::build(tl());
+    for t in [0.0f32, 0.1, 0.5, 1.0, 1.2, 3.0] {
+        let mut target = initial.clone();
+        bare.update(&mut target, t);
+        if let Some(d) = check(&target, &format!("Timeline::update at t={t}")) {
+            return Some(d);
+        }
+    }
+    let mut anim = StateAnimatorBuilder::new()
+        .from_state(Sh::C)
+        .from_values(initial.clone())
+        .on(Sh::A, tl())
+        .on(Sh::B, Documented::timeline().keyframe(Documented::keyframe(1.0).x(3.0).y(4.0)))
+        .build();
+    for (i, (op, _)) in ops.iter().enumerate() {
+        match op {
+            Op::Advance(dt) => anim.advance(*dt),
+            Op::SetState(s) => anim.set_state(&SH[*s as usize % 3]),
+        }
+        if let Some(d) = check(anim.current_values(), &format!("operation {i} ({op:?})")) {
+            return Some(d);
+        }
+    }
+    None
+}
+
+pub const SHAPE_NAMES: [&str; 5] = ["OneOfThree", "OneOfTwo", "TwoOfThree", "ThreeOfFive", "Documented"];
 
 pub fn run_shape(which: usize, ops: &[(Op, Fault)], variant: u64) -> Option<String> {
-    match which % 4 {
+    match which % 5 {
         0 => run_one_of_three(ops, variant),
         1 => run_one_of_two(ops, variant),
         2 => run_two_of_three(ops, variant),
-        _ => run_three_of_five(ops, variant),
+        3 => run_three_of_five(ops, variant),
+        _ => run_documented(ops, variant),
     }
 }
